@@ -13,35 +13,116 @@ oracle : on the implementation alone, for EVERY case: errors(with directives) = 
          prints KNOWN-FINDING, any other deviation is a VIOLATION.
 """
 import os
+import re
 import vcommon as V
 from gen import ignoregen as G
 
 IMPL = [os.path.join(V.BUILD, "implrun"), "lint-ignore"]
 
 
+def hxs(t):
+    return '"' + t.encode().hex() + '"'
+
+
 def parse_reply(rep):
-    """'ok rule@line ...' -> [(rule, line)] | None"""
+    """'ok rule@line rule@file#line ...' -> [(rule, line | (file, line))] | None"""
     if rep is None or not rep.startswith("ok"):
         return None
     out = []
     for it in rep.split()[1:]:
         r, _, ln = it.rpartition("@")
-        out.append((r, int(ln)))
+        if "#" in ln:
+            f, _, l2 = ln.rpartition("#")
+            out.append((r, (f, int(l2))))
+        else:
+            out.append((r, int(ln)))
     return out
 
 
+META_IDEMIT = ("sub", "other", "simple", "if", "branch", "switch", "case", "block")
+
+
+def read_dump(dump):
+    """the reply of `implrun ignore-meta`: (model request, {(line, position): (node number, list 0|1|2, node kind)}) or None.
+    Node numbers are pre-order, blocks counted - the numbering of gen/ignoregen.py Program.number()."""
+    if dump is None or not dump.startswith("ok "):
+        return None
+    toks = re.findall(r'\(|\)|"[0-9a-f]*"@\d+:\d+|[^\s()]+', dump[3:])
+    land = {}
+    counter = [0]
+    pos = [0]
+
+    def walk():
+        # toks[pos] == "("
+        pos[0] += 1
+        head = toks[pos[0]] if toks[pos[0]] not in ("(", ")") else None
+        me = None
+        if head in META_IDEMIT:
+            me = counter[0]
+            counter[0] += 1
+        if head == "m":
+            pos[0] += 1
+            lists = []
+            for li in range(3):
+                pos[0] += 1          # "("
+                items = []
+                while toks[pos[0]] != ")":
+                    items.append(toks[pos[0]])
+                    pos[0] += 1
+                pos[0] += 1
+                lists.append(items)
+            pos[0] += 1              # ")"
+            return ("m", lists)
+        kids = []
+        if head is not None:
+            pos[0] += 1
+        while toks[pos[0]] != ")":
+            if toks[pos[0]] == "(":
+                k = walk()
+                if k[0] == "m" and me is not None:
+                    for li, items in enumerate(k[1]):
+                        for it in items:
+                            m = re.match(r'"[0-9a-f]*"@(\d+):(\d+)', it)
+                            land[(int(m.group(1)), int(m.group(2)))] = (me, li, head)
+            else:
+                pos[0] += 1
+        pos[0] += 1
+        return (head, None)
+    walk()
+    return re.sub(r'("[0-9a-f]*")@\d+:\d+', r"\1", dump[3:]), land
+
+
+def full_line_map(prog):
+    """line (or (snippet file, line)) -> node id"""
+    m = {}
+    for n in prog.nodes():
+        if n.kind == "block":
+            continue
+        if n.file is not None:
+            m[(n.file, n.srcline)] = n.id
+        elif n.line is not None:
+            m[n.line] = n.id
+    return m
+
+
 def locate(prog, errs):
-    """[(rule, line)] -> sorted [(rule, node id)]; a diagnostic on a line owned by no node gets id -line"""
-    lm = prog.line_map()
+    """[(rule, line)] -> sorted [(rule, node id)]; a diagnostic on a line owned by no node gets a negative id"""
+    lm = full_line_map(prog)
     out = []
     for r, ln in errs:
-        n = lm.get(ln)
-        out.append((r, n.id if n is not None else -ln))
+        out.append((r, lm.get(ln, -(ln if isinstance(ln, int) else 10 ** 6 + ln[1]))))
     return sorted(out)
 
 
 class Case:
-    __slots__ = ("prog", "placements", "src", "covered", "facts", "label", "desc", "nbase")
+    __slots__ = ("prog", "placements", "src", "covered", "facts", "label", "desc", "nbase",
+                 "static_cov", "slot_dirs", "subtree", "base_loc", "dg", "extra_req", "py_sexp")
+
+
+def subtree_map(prog):
+    if getattr(prog, "_subtree", None) is None:
+        prog._subtree = {n.id: frozenset(x.id for x in n.walk()) for n in prog.nodes()}
+    return prog._subtree
 
 
 def slots_of(prog):
@@ -68,7 +149,10 @@ def range_choices(prog):
 def apply_placement(prog, pl):
     """pl = dict(kind, node, where, text) ; appended in order"""
     node = pl["node"]
-    lst = getattr(node, pl["where"])
+    if pl["where"].startswith("extra:"):
+        lst = node.extra.setdefault(pl["where"][6:], [])
+    else:
+        lst = getattr(node, pl["where"])
     pl["obj"] = G.Tagged(pl["text"])
     if pl.get("front"):
         lst.insert(0, pl["obj"])
@@ -92,7 +176,7 @@ def covered_by(prog, d):
 
 def mk_directive(rng, prog, fired_rules, form=None, marker=None, with_rules=None):
     lead, trail, infix = slots_of(prog)
-    form = form or rng.choice(["next-line"] * 4 + ["this-line"] * 3 + ["range"] * 4 + ["dead"])
+    form = form or rng.choice(["next-line"] * 4 + ["this-line"] * 3 + ["range"] * 4 + ["dead"] + ["slot"] * 4)
     marker = marker or rng.choice(G.MARKERS)
     if with_rules is None:
         with_rules = rng.random() < 0.5
@@ -121,6 +205,14 @@ def mk_directive(rng, prog, fired_rules, form=None, marker=None, with_rules=None
                                     "front": rng.random() < 0.5})
         else:
             d["placements"].append({"node": owner, "where": "infix", "text": G.comment(m2, "end", rules, rng)})
+    elif form == "slot":
+        # one of the other comment placeholders of docs/parser.md; what it covers follows from where the parser attaches it
+        cands = [(n, sl) for n in prog.nodes() for sl in n.slots()]
+        n, sl = rng.choice(cands)
+        kind = rng.choice(["next-line", "next-line", "this-line"])
+        mk = marker if sl in G.LINE_END_SLOTS else "/*"
+        d.update(node=n, slot=sl, kind=kind, marker=mk)
+        d["placements"].append({"node": n, "where": "extra:" + sl, "text": G.comment(mk, kind, rules, rng)})
     else:   # dead: a directive keyword in a position where the linter does not look for it
         k = rng.choice(["this-in-lead", "next-in-trail", "start-in-trail", "next-in-infix"])
         if k == "this-in-lead":
@@ -135,11 +227,67 @@ def mk_directive(rng, prog, fired_rules, form=None, marker=None, with_rules=None
     return d
 
 
+def snippet_program(rng, bld, k):
+    """sub vcl_recv whose #FASTLY RECV macro embeds 1-2 managed snippets; the first embedded statement carries k % 4 comments.
+    Returns (program, request suffix, plain source)."""
+    n_main = rng.randint(2, 4)
+    main = [bld.simple() for _ in range(n_main)]
+    at = 0 if rng.random() < 0.7 else rng.randrange(n_main)          # the statement that carries the macro
+    main[at].fixed_lead = [rng.choice(["#FASTLY RECV", "#FASTLY recv", "#FASTLY RECV managed snippets go here"])]
+    snips = []
+    for j in range(rng.choice([1, 1, 2])):
+        for i in range(rng.choice([1, 2])):
+            st = bld.simple()
+            st.file = "snippet::managed%d" % j
+            if j == 0 and i == 0:
+                st.fixed_lead = ["# managed by fastly (%d)" % t for t in range(k % 4)]
+            elif rng.random() < 0.3:
+                st.fixed_lead = ["// a comment"]
+            snips.append(st)
+    body = main[:at] + snips + main[at:]
+    tail = G.Node("sub", "vcl_deliver", [bld.block([bld.simple(0)])])
+    prog = G.Program([G.Node("sub", "vcl_recv", [bld.block(body)]), tail]).number()
+    prog.macro_stmt = main[at]
+    prog.clear()
+    plain = prog.render()
+    return prog, prog.snippet_req, plain
+
+
+def snippet_directives(rng, prog, fired, j):
+    """directives above / below / around the macro line (systematic for the first cases), then anywhere"""
+    m = prog.macro_stmt
+    named = [r for r in fired if r != "-"]
+    rules = [rng.choice(named)] if named and j % 2 else []
+    mk = G.MARKERS[j % 3]
+
+    def nl(where):
+        return {"form": "next-line", "rules": rules, "marker": mk, "node": m,
+                "placements": [{"node": m, "where": where, "text": G.comment(mk, "next-line", rules)}]}
+    if j == 0 or j == 1:
+        return [nl("lead")]                               # below the macro, directly above the statement
+    if j == 2 or j == 3:
+        return [nl("pre_lead")]                           # above the macro
+    if j in (4, 5, 6, 7):
+        # start above / below the macro, end before a later statement of the body (or before the closing brace)
+        owner = next(n for n in prog.nodes() if n.kind == "block" and m in n.kids)
+        lst = owner.kids
+        i = lst.index(m)
+        jj = rng.randint(i + 1, len(lst))
+        pls = [{"node": m, "where": "pre_lead" if j < 6 else "lead", "text": G.comment(mk, "start", rules)}]
+        if jj < len(lst):
+            pls.append({"node": lst[jj], "where": "lead", "text": G.comment(mk, "end", rules)})
+        else:
+            pls.append({"node": owner, "where": "infix", "text": G.comment(mk, "end", rules)})
+        return [{"form": "range", "rules": rules, "marker": mk, "owner": owner, "lst": lst, "i": i, "j": jj, "placements": pls}]
+    return [mk_directive(rng, prog, fired, form=rng.choice(["next-line", "this-line", "range"])) for _ in range(rng.choice([1, 2]))]
+
+
 def trailing_ok(node):
     """a line comment must be the last thing on the line"""
-    for c in node.trail[:-1]:
-        if not c.startswith("/*"):
-            return False
+    for lst in [node.trail] + list(node.extra.values()):
+        for c in lst[:-1]:
+            if not c.startswith("/*"):
+                return False
     return True
 
 
@@ -151,6 +299,8 @@ def describe(d):
         s += "@%s[%d:%d]" % (d["owner"].kind if d["owner"] else "program", d["i"], d["j"])
     if d.get("dead"):
         s += ":" + d["dead"]
+    if d["form"] == "slot":
+        s += ":" + d["kind"] + "@" + d["slot"]
     return s
 
 
@@ -173,15 +323,16 @@ KNOWN_OVERLAP = {"construct": "overlapping-ranges-sharing-rules"}
 
 def overlap_facts(prog, ds):
     """The one construct for which the implementation is known (known_findings.txt) not to follow the
-    property: two start..end pairs whose source extents overlap (one starts before the other has ended:
-    nested or interleaved) AND whose rule lists are not disjoint (a bare pair names every rule).  The
+    property: two start..end pairs whose source extents overlap in the statement stream (one starts before the
+    other has ended: nested or interleaved) AND whose rule lists are not disjoint (a bare pair names every rule).  The
     range set is one set: the end of the inner pair removes its rules from it, also for the outer pair.
     Call after prog.render().  Returns the facts for ctx.violation, or None."""
     rs = [d for d in ds if d["form"] == "range"]
     if len(rs) < 2:
         return None
     a, b = rs[0], rs[1]
-    (sa, ea), (sb, eb) = [tuple(prog.cline[id(p["obj"])] for p in d["placements"]) for d in (a, b)]
+    order = prog.comment_order()
+    (sa, ea), (sb, eb) = [tuple(order[id(p["obj"])] for p in d["placements"]) for d in (a, b)]
     if ea < sb or eb < sa:
         return None                      # one pair is closed before the other opens
     if a["rules"] and b["rules"] and not (set(a["rules"]) & set(b["rules"])):
@@ -239,10 +390,13 @@ def run(ctx):
     # ---------------- programs
     bld = G.Builder(rng)
     progs = []
-    n_prog = 2500 if thorough else 400
+    n_prog = 2500 if thorough else 280
     for i in range(n_prog):
         progs.append(("gen-%d" % i, bld.program()))
     max_shape = 6 if thorough else 5
+    max_slot_shape = 5 if thorough else 4
+    max_pair_shape = 4 if thorough else 3
+    n_snippet = 300 if thorough else 25
     shape_progs = []
     for n in range(1, max_shape + 1):
         for k, sh in enumerate(G.shapes(n)):
@@ -280,24 +434,45 @@ def run(ctx):
     cases = []
     stat = {"n": 0, "agree": 0, "oracle_agree": 0, "oracle_checked": 0, "nontrivial": 0, "leak_detectors": 0}
     forms = {}
+    landed = {}
     distinct = set()
     samples = []
+    META = [os.path.join(V.BUILD, "implrun"), "ignore-meta"]
+
+    def fill(req, dg):
+        """the parser's tree with the diagnostics of the baseline at the placeholders"""
+        def two(m):
+            rs = dg.get(int(m.group(1)), [])
+            return "(%s) (%s)" % (" ".join(hxs(r) for r in rs if r not in G.DEFERRED_RULES),
+                                  " ".join(hxs(r) for r in rs if r in G.DEFERRED_RULES))
+        req = re.sub(r"@S(\d+)", two, req)
+        return re.sub(r"@P(\d+)", lambda m: "(%s)" % " ".join(hxs(r) for r in dg.get(int(m.group(1)), [])), req)
 
     def flush():
         if not cases:
             return
-        ireps = V.run_batch(IMPL, [c.src.encode().hex() for c, _ in cases], hang_s=10)
-        mreps = V.run_batch([model], ["vcl " + c.covered[0] for c, _ in cases], hang_s=30)
-        for (c, exp), ir, mr in zip(cases, ireps, mreps):
-            sexp, linemap, pathmap = c.covered
+        ireps = V.run_batch(IMPL, [c.src.encode().hex() + c.extra_req for c in cases], hang_s=10)
+        dumps = V.run_batch(META, [c.src.encode().hex() for c in cases], hang_s=10)
+        mreq, lands = [], []
+        for c, dump in zip(cases, dumps):
+            rd = read_dump(dump)
+            lands.append(rd[1] if rd else None)
+            # the model is fed the tree and the comment attachment of the real parser; programs with embedded managed
+            # snippets (not part of the parsed file) use the tree the generator predicts
+            mreq.append("vcl " + (c.py_sexp if c.py_sexp is not None else fill(rd[0], c.dg) if rd else "()"))
+        mreps = V.run_batch([model], mreq, hang_s=30)
+        for c, ir, mr, land in zip(cases, ireps, mreps, lands):
+            linemap, pathmap = c.covered
             errs = parse_reply(ir)
             replay = {"label": c.label, "directives": c.desc, "source": c.src, "impl": ir, "model": mr}
+            if c.extra_req:
+                replay["scoped_snippets"] = c.extra_req
             size = len(c.src)
             stat["n"] += 1
-            if errs is None:
-                viol.append((size, "linting a program with ignore comments failed: %s (%s)" % (ir, c.desc), replay, None))
+            if errs is None or (land is None and c.py_sexp is None):
+                viol.append((size, "linting / parsing a program with ignore comments failed: %s (%s)" % (ir, c.desc), replay, None))
                 continue
-            got = sorted((r, linemap.get(ln, -ln)) for r, ln in errs)
+            got = sorted((r, linemap.get(ln, -1)) for r, ln in errs)
             if mr is None or not mr.startswith("ok"):
                 viol.append((size, "model driver failed: %s" % mr, replay, None))
                 continue
@@ -309,33 +484,45 @@ def run(ctx):
             for d in c.placements:
                 key = d["form"] + ("+rules" if d["rules"] else "") + " " + d["marker"]
                 forms[key] = forms.get(key, 0) + 1
-            distinct.add(hash(c.src))
+            distinct.add(hash(c.src + c.extra_req))
             if got != mod:
                 viol.append((size, "linter and Model/Ignore.v disagree on the reported diagnostics [%s]: only linter %s, only model %s"
                              % (c.desc, sorted(set(got) - set(mod))[:6], sorted(set(mod) - set(got))[:6]), replay, None))
             else:
                 stat["agree"] += 1
+            # ---- the direct oracle: baseline minus covered-and-named
+            cov = list(c.static_cov)
+            for (ln, col, kind, rules, slot) in c.slot_dirs:
+                at = land.get((ln, col)) if land else None
+                where = "nowhere"
+                if at is not None:
+                    where = "%s.%s" % (at[2], ("leading", "trailing", "infix")[at[1]])
+                    if (kind == "next-line" and at[1] == 0) or (kind == "this-line" and at[1] == 1 and at[2] != "block"):
+                        cov.append((c.subtree[at[0]], rules))
+                key = "%s -> %s" % (slot, where)
+                landed[key] = landed.get(key, 0) + 1
+            exp = sorted((r, nid) for r, nid in c.base_loc
+                         if not any(nid in ids and (not rules or r in rules) for ids, rules in cov))
             if c.facts:
                 stat["overlap_cases"] = stat.get("overlap_cases", 0) + 1
-            if exp is not None:
-                stat["oracle_checked"] += 1
-                if got != exp:
-                    extra = [x for x in got if x not in exp]
-                    missing = [x for x in exp if x not in got]
-                    what = ("ignore comment does not suppress exactly what it covers [%s]: " % c.desc
-                            + ("still reported inside the covered statements %s; " % extra[:6] if extra else "")
-                            + ("suppressed outside the covered statements / unnamed rules %s" % missing[:6] if missing else ""))
-                    if c.facts:
-                        stat["known_overlap"] = stat.get("known_overlap", 0) + 1
-                    (known_v if c.facts else viol).append((size, what, dict(replay, expected=exp, got=got), c.facts))
-                else:
-                    stat["oracle_agree"] += 1
-                    if len(exp) < c.nbase:
-                        stat["nontrivial"] += 1
-                        if exp:
-                            stat["leak_detectors"] += 1
+            stat["oracle_checked"] += 1
+            if got != exp:
+                extra = [x for x in got if x not in exp]
+                missing = [x for x in exp if x not in got]
+                what = ("ignore comment does not suppress exactly what it covers [%s]: " % c.desc
+                        + ("still reported inside the covered statements %s; " % extra[:6] if extra else "")
+                        + ("suppressed outside the covered statements / unnamed rules %s" % missing[:6] if missing else ""))
+                if c.facts:
+                    stat["known_overlap"] = stat.get("known_overlap", 0) + 1
+                (known_v if c.facts else viol).append((size, what, dict(replay, expected=exp, got=got), c.facts))
+            else:
+                stat["oracle_agree"] += 1
+                if len(exp) < c.nbase:
+                    stat["nontrivial"] += 1
+                    if exp:
+                        stat["leak_detectors"] += 1
         if len(samples) < 3 and len(cases) > 1:
-            samples.append({"directives": cases[len(cases) // 2][0].desc, "source": cases[len(cases) // 2][0].src[:600]})
+            samples.append({"directives": cases[len(cases) // 2].desc, "source": cases[len(cases) // 2].src[:600]})
         if len(viol) > 400:
             viol.sort(key=lambda v: v[0])
             del viol[200:]
@@ -344,23 +531,31 @@ def run(ctx):
             del known_v[5:]
         del cases[:]
 
-    def add_case(label, p, ds):
+    def add_case(label, p, ds, crlf=False, extra_req="", use_py_sexp=False):
         p.clear()
+        p.crlf = crlf
         for d in ds:
             for pl in d["placements"]:
                 apply_placement(p, pl)
-        if not all(trailing_ok(n) for n in p.nodes() if n.kind == "simple"):
+        if not all(trailing_ok(n) for n in p.nodes()):
+            p.crlf = False
             return
         c = Case()
-        c.prog, c.placements, c.label = None, [{"form": d["form"], "rules": d["rules"], "marker": d["marker"]} for d in ds], label
+        c.prog, c.placements, c.label = None, [{"form": d["form"], "rules": d["rules"], "marker": d["marker"]} for d in ds], label + ("/crlf" if crlf else "")
         c.src = p.render()
+        p.crlf = False
         c.desc = "; ".join(describe(d) for d in ds)
         loc, dg, fired = base[id(p)]
-        c.nbase = len(loc)
-        c.covered = (p.sexp(dg), {n.line: n.id for n in p.nodes() if n.kind != "block" and n.line is not None},
-                     {k: v.id for k, v in p.model_paths().items()})
+        c.nbase, c.base_loc, c.dg = len(loc), loc, dg
+        c.covered = (full_line_map(p), {k: v.id for k, v in p.model_paths().items()})
+        c.subtree = subtree_map(p)
+        c.static_cov = [(frozenset(covered_by(p, d)), d["rules"]) for d in ds if d["form"] != "slot"]
+        c.slot_dirs = [(p.cline[id(d["placements"][0]["obj"])], p.cpos[id(d["placements"][0]["obj"])], d["kind"], d["rules"], d["node"].slot_kind() + "." + d["slot"])
+                       for d in ds if d["form"] == "slot"]
         c.facts = overlap_facts(p, ds)
-        cases.append((c, expected_by_oracle(p, loc, ds)))
+        c.extra_req = p.snippet_req if extra_req is None else extra_req
+        c.py_sexp = p.sexp(dg) if use_py_sexp else None
+        cases.append(c)
         if len(cases) >= 20000:
             flush()
 
@@ -372,14 +567,15 @@ def run(ctx):
         add_case(label, p, [])
         for k in range(per_prog):
             nd = 1 if rng.random() < 0.55 else 2
-            add_case(label, p, [mk_directive(rng, p, fired) for _ in range(nd)])
+            add_case(label, p, [mk_directive(rng, p, fired) for _ in range(nd)], crlf=rng.random() < 0.08)
 
     # exhaustive: every shape x every single-directive placement (marker rotated, with and without a rule list)
-    exhaustive_n = 0
+    exhaustive_n = slot_n = pair_n = 0
     rot = 0
     for label, p in usable:
         if not label.startswith("shape-"):
             continue
+        nshape = int(label.split("-")[1])
         loc, dg, fired = base[id(p)]
         named = [r for r in fired if r != "-"]
         lead, trail, infix = slots_of(p)
@@ -408,6 +604,63 @@ def run(ctx):
                 add_case(label, p, [{"form": "range", "rules": rules, "marker": mk, "owner": owner, "lst": lst, "i": i, "j": j,
                                      "placements": pls}])
                 exhaustive_n += 1
+            # every other comment placeholder of every node, next-line and trailing keyword
+            if nshape <= max_slot_shape:
+                for n in p.nodes():
+                    for sl in n.slots():
+                        for kind in ("next-line", "this-line"):
+                            rot += 1
+                            mk = G.MARKERS[rot % 3] if sl in G.LINE_END_SLOTS else "/*"
+                            add_case(label, p, [{"form": "slot", "kind": kind, "slot": sl, "rules": rules, "marker": mk, "node": n,
+                                                 "placements": [{"node": n, "where": "extra:" + sl, "text": G.comment(mk, kind, rules)}]}])
+                            slot_n += 1
+        # nested pairs of rule-listed next-line directives: an outer one before a compound statement, an inner one at any
+        # place inside it where the parser makes it a leading comment (of a statement, a branch, a case, a block), each
+        # naming one rule, all ordered pairs of the rules raised in the program (state leaking from the inner directive
+        # into the rest of the outer statement shows as a diagnostic missing after the inner node)
+        if nshape <= max_pair_shape and len(named) >= 2:
+            st = subtree_map(p)
+            outers = [n for n in p.nodes() if n.kind in ("if", "switch", "sub", "branch", "case")]
+            for o in outers:
+                inner_slots = [(n, "lead") for n in p.nodes() if n.kind != "block" and n.id in st[o.id] and n.id != o.id]
+                inner_slots += [(n, "extra:" + sl) for n in p.nodes() if n.id in st[o.id] for sl in n.slots() if sl in ("brace", "after_brace")]
+                for n, where in inner_slots:
+                    for ra in named:
+                        for rb in named:
+                            if ra == rb:
+                                continue
+                            d_out = {"form": "next-line", "rules": [ra], "marker": "#", "node": o,
+                                     "placements": [{"node": o, "where": "lead", "text": G.comment("#", "next-line", [ra])}]}
+                            if where == "lead":
+                                d_in = {"form": "next-line", "rules": [rb], "marker": "//", "node": n,
+                                        "placements": [{"node": n, "where": "lead", "text": G.comment("//", "next-line", [rb])}]}
+                            else:
+                                d_in = {"form": "slot", "kind": "next-line", "slot": where[6:], "rules": [rb], "marker": "/*", "node": n,
+                                        "placements": [{"node": n, "where": where, "text": G.comment("/*", "next-line", [rb])}]}
+                            add_case(label, p, [d_out, d_in])
+                            pair_n += 1
+    # programs whose statement stream the linter changes: managed snippets embedded at the #FASTLY macro
+    snippet_n = 0
+    sps = [sp for sp in (snippet_program(rng, bld, k) for k in range(n_snippet)) if sp is not None]
+    sbase = V.run_batch(IMPL, [plain.encode().hex() + req for _, req, plain in sps], hang_s=10)
+    for k, ((prog, req, plain), brep) in enumerate(zip(sps, sbase)):
+        errs = parse_reply(brep)
+        if errs is None:
+            viol.append((len(plain), "baseline lint of a program with managed snippets failed: %s" % brep, {"source": plain, "scoped": req, "reply": brep}, None))
+            continue
+        loc = locate(prog, errs)
+        if any(nid < 0 for _, nid in loc):
+            viol.append((len(plain), "a diagnostic of a program with managed snippets is located in no statement", {"source": plain, "scoped": req, "reply": brep}, None))
+            continue
+        dg = {}
+        for r, nid in loc:
+            dg.setdefault(nid, []).append(r)
+        base[id(prog)] = (loc, dg, sorted(set(r for r, _ in loc)))
+        fired = base[id(prog)][2]
+        for j in range(12):
+            ds = snippet_directives(rng, prog, fired, j)
+            add_case("snippets-%d" % k, prog, ds, extra_req=None, use_py_sexp=True)
+            snippet_n += 1
     flush()
 
     # ---------------- verdict
@@ -431,6 +684,9 @@ def run(ctx):
         "exhaustive_bound": "every statement-tree shape with <= %d statements (simple | if | if/else | if/else-if | switch 1-2 cases) "
                             "x every next-line slot, this-line slot and start/end pair, with and without a rule list" % max_shape,
         "exhaustive_single_directive_cases": exhaustive_n,
+        "exhaustive_placeholder_cases": slot_n, "exhaustive_placeholder_bound": "shapes with <= %d statements x every placeholder of docs/parser.md x {next-line, trailing keyword} x {bare, one rule}" % max_slot_shape,
+        "nested_rule_listed_pairs": pair_n, "managed_snippet_cases": snippet_n,
+        "where_the_parser_attached_the_placeholder_comments": dict(sorted(landed.items())),
         "model_impl_agree": stat["agree"], "oracle_checked": stat["oracle_checked"], "oracle_agree": stat["oracle_agree"],
         "overlapping_range_pairs_sharing_rules": stat.get("overlap_cases", 0),
         "of_which_deviate_from_the_property_(known finding)": stat.get("known_overlap", 0),
